@@ -12,6 +12,7 @@ import (
 	"testing/synctest"
 	"time"
 
+	nfsv4prog "github.com/buildbarn/bb-remote-execution/pkg/filesystem/virtual/nfsv4"
 	"github.com/buildbarn/go-xdr/pkg/protocols/nfsv4"
 	"pgregory.net/rapid"
 
@@ -110,6 +111,19 @@ func (w *world) needSession() (*sessM, uint32) {
 		w.bootstrap(pick(w, "client", w.clients))
 		return nil, 0
 	}
+	// Slots whose sequence ID is about to wrap, or just did, are preferred.
+	var hot []slotRef
+	for _, c := range cands {
+		for _, i := range c.idle {
+			if c.s.slots[i].hot() {
+				hot = append(hot, slotRef{c.s, i})
+			}
+		}
+	}
+	if len(hot) > 0 && w.pct("preferWrappingSlot", 60) {
+		r := pick(w, "slotRef", hot)
+		return r.s, r.slot
+	}
 	c := pick(w, "session", cands)
 	return c.s, pick(w, "slot", c.idle)
 }
@@ -144,10 +158,16 @@ func (w *world) pickFH(preferLeaf bool) ([]byte, bool) {
 }
 
 type stateRef struct {
-	sid  nfsv4.Stateid4
-	fh   []byte
-	kind string // open or lock
-	seq  uint32
+	sid    nfsv4.Stateid4
+	fh     []byte
+	kind   string // open or lock
+	seq    uint32
+	preset bool // the seqid was placed just below 2^32 (see presetStateID)
+}
+
+// hot: the next few seqids of the state ID straddle the wrap-around.
+func (s stateRef) hot() bool {
+	return s.preset && (s.seq >= maxU32-3 || s.seq <= 2)
 }
 
 func statesOf(inc *incM) []stateRef {
@@ -160,9 +180,9 @@ func statesOf(inc *incM) []stateRef {
 	for _, o := range others {
 		switch s := inc.byOther[o].(type) {
 		case *openM:
-			out = append(out, stateRef{sid: mkStateID(s.seq, s.other), fh: s.fh, kind: "open", seq: s.seq})
+			out = append(out, stateRef{sid: mkStateID(s.seq, s.other), fh: s.fh, kind: "open", seq: s.seq, preset: s.preset})
 		case *lockM:
-			out = append(out, stateRef{sid: mkStateID(s.seq, s.other), fh: s.open.fh, kind: "lock", seq: s.seq})
+			out = append(out, stateRef{sid: mkStateID(s.seq, s.other), fh: s.open.fh, kind: "lock", seq: s.seq, preset: s.preset})
 		}
 	}
 	return out
@@ -189,6 +209,17 @@ var sidDeviations = []string{"seq0", "old", "future", "otherfile", "foreign", "d
 func (w *world) pickSID(inc *incM, want string) (nfsv4.Stateid4, []byte, string, bool) {
 	own := statesOf(inc)
 	right := filterStates(own, want)
+	// State IDs whose seqid is about to wrap, or just did, are preferred,
+	// so that the bumps and the comparisons happen across the wrap-around.
+	var hot []stateRef
+	for _, s := range right {
+		if s.hot() {
+			hot = append(hot, s)
+		}
+	}
+	if len(hot) > 0 && w.pct("preferWrappingStateID", 60) {
+		right = hot
+	}
 	if len(right) > 0 && !w.pct("sidDeviation", w.p.devPct) {
 		s := pick(w, "state", right)
 		return s.sid, s.fh, "cur", true
@@ -201,7 +232,12 @@ func (w *world) pickSID(inc *incM, want string) (nfsv4.Stateid4, []byte, string,
 	if !ok {
 		return nfsv4.Stateid4{}, nil, "", false
 	}
-	dev := pick(w, "deviation", sidDeviations)
+	deviations := sidDeviations
+	if len(hot) > 0 {
+		// More seqid deviations while a state ID is at its wrap-around.
+		deviations = append(append([]string(nil), sidDeviations...), "old", "old", "old", "future", "seq0")
+	}
+	dev := pick(w, "deviation", deviations)
 	base := right
 	if dev == "wrongkind" {
 		base = nil
@@ -221,14 +257,35 @@ func (w *world) pickSID(inc *incM, want string) (nfsv4.Stateid4, []byte, string,
 		case "seq0":
 			s.sid.Seqid = 0
 		case "old":
-			if s.seq < 2 {
+			switch {
+			case s.preset:
+				// The state ID has been through every seqid: one of the
+				// last three it had (2^32-1 precedes 1).
+				v := s.seq
+				for i, n := 0, w.draw("oldBy", 1, 3); i < n; i++ {
+					v = prevSeqID(v)
+				}
+				s.sid.Seqid = v
+				if v > s.seq {
+					w.label("stateid_deviation_across_wrap:old")
+				}
+			case s.seq < 2:
 				dev = "future"
 				s.sid.Seqid = s.seq + 1
-			} else {
+			default:
 				s.sid.Seqid = s.seq - uint32(w.draw("oldBy", 1, int(s.seq-1)))
 			}
 		case "future":
-			s.sid.Seqid = s.seq + uint32(w.draw("futureBy", 1, 3))
+			// One of the next three seqids the state ID will have (1
+			// follows 2^32-1).
+			v := s.seq
+			for i, n := 0, w.draw("futureBy", 1, 3); i < n; i++ {
+				v = nextSeqID(v)
+			}
+			s.sid.Seqid = v
+			if v < s.seq {
+				w.label("stateid_deviation_across_wrap:future")
+			}
 		case "otherfile":
 			s.fh = anyFH
 		}
@@ -640,6 +697,86 @@ func (w *world) slotsWhere(f func(s *sessM, sl *slotM) bool) []slotRef {
 	return out
 }
 
+// preferHot narrows the candidates down to the slots whose sequence ID
+// is about to wrap or just did, most of the time.
+func (w *world) preferHot(cands []slotRef) []slotRef {
+	var hot []slotRef
+	for _, r := range cands {
+		if r.s.slots[r.slot].hot() {
+			hot = append(hot, r)
+		}
+	}
+	if len(hot) > 0 && w.pct("preferWrappingSlot", 60) {
+		return hot
+	}
+	return cands
+}
+
+// presetSlot places the sequence ID of an idle slot of a session the
+// server still has just below the wrap-around (or at zero, right behind
+// it). A client could only get there by sending 2^32 requests on the
+// slot; the hook does to the slot what those would have done (the cached
+// reply is discarded: the model treats the slot like a fresh one, whose
+// sequence ID has no reply to be replayed).
+func (w *world) presetSlot(r slotRef, v uint32) {
+	sl := r.s.slots[r.slot]
+	w.stepNo++
+	w.record("preset_slot", fmt.Sprintf("%s slot %d: last sequence ID %d -> %d", r.s, r.slot, sl.lastSeq, v))
+	if !nfsv4prog.VerifSetSlotSequenceID(w.prog, r.s.id, r.slot, v) {
+		w.failf("C19: %s slot %d is idle and its session exists according to the replies, but the server considers the slot busy or the session gone (VerifSetSlotSequenceID refused)", r.s, r.slot)
+	}
+	sl.lastSeq, sl.last, sl.preset = v, nil, true
+	w.label("slot_sequence_preset")
+	w.checkQuiescent()
+}
+
+type stateTarget struct {
+	inc   *incM
+	other uint64
+	desc  string
+	seq   *uint32
+	flag  *bool
+}
+
+// presetTargets: the live open and lock state IDs of incarnations that no
+// request holds.
+func (w *world) presetTargets() []stateTarget {
+	var out []stateTarget
+	for _, inc := range w.allIncs {
+		if inc.gone || inc.holds > 0 {
+			continue
+		}
+		var others []uint64
+		for o := range inc.byOther {
+			others = append(others, o)
+		}
+		sort.Slice(others, func(i, j int) bool { return others[i] < others[j] })
+		for _, o := range others {
+			switch s := inc.byOther[o].(type) {
+			case *openM:
+				out = append(out, stateTarget{inc, o, s.String(), &s.seq, &s.preset})
+			case *lockM:
+				out = append(out, stateTarget{inc, o, s.String(), &s.seq, &s.preset})
+			}
+		}
+	}
+	return out
+}
+
+// presetStateID places the seqid of a live open or lock state ID just
+// below its wrap-around, which a client could only reach through 2^32
+// state-changing operations on it.
+func (w *world) presetStateID(t stateTarget, v uint32) {
+	w.stepNo++
+	w.record("preset_stateid_seqid", fmt.Sprintf("%s: sid(%d,#%d) -> sid(%d,#%d)", t.desc, *t.seq, t.other, v, t.other))
+	if !nfsv4prog.VerifSetStateIDSeqID(w.prog, t.inc.clientID, t.other, v) {
+		w.failf("C18: %s exists and %s has no request in flight according to the replies, but the server does not have that state ID or holds the incarnation (VerifSetStateIDSeqID refused)", t.desc, t.inc)
+	}
+	*t.seq, *t.flag = v, true
+	w.label("stateid_seqid_preset")
+	w.checkQuiescent()
+}
+
 func (w *world) doStep(op string) {
 	w.doStepInner(op)
 	w.maybeProbeLocks()
@@ -678,6 +815,39 @@ func (w *world) doStepInner(op string) {
 		w.doDestroyClientID(pick(w, "targetInc", w.allIncs))
 	case "shutdown":
 		w.shutdown()
+	case "preset_slot":
+		cands := w.slotsWhere(func(s *sessM, sl *slotM) bool { return s.live() && !s.clientKnowsDead && sl.busy == nil && !sl.hot() })
+		if len(cands) == 0 {
+			w.seqAction(pick(w, "template", []string{"open", "close", "lock_new"}), false)
+			return
+		}
+		r := pick(w, "slotRef", cands)
+		v := pick(w, "slotSequence", []uint32{maxU32 - 2, maxU32 - 1, maxU32, maxU32, 0})
+		w.presetSlot(r, v)
+		if w.pct("retransmitAfterPreset", 25) {
+			// A "retransmission" with the slot's sequence ID, of which the
+			// slot has no reply: RFC 8881 section 2.10.6.1.3 leaves
+			// NFS4ERR_SEQ_MISORDERED, as for a fresh slot.
+			t := w.buildTemplate(r.s.inc, pick(w, "template", []string{"open", "close", "lock_new", "remove", "write"}))
+			c := w.sendSeq(r.s, r.slot, v, "misordered", t, w.pct("cachethis", w.p.cachePct), nil, nil)
+			w.learnSessionFate(c)
+		}
+	case "preset_stateid_seqid":
+		all := w.presetTargets()
+		var cands []stateTarget
+		for _, t := range all {
+			if !*t.flag {
+				cands = append(cands, t)
+			}
+		}
+		if len(cands) == 0 {
+			cands = all
+		}
+		if len(cands) == 0 {
+			w.seqAction(pick(w, "template", []string{"open", "lock_new"}), false)
+			return
+		}
+		w.presetStateID(pick(w, "stateID", cands), pick(w, "seqid", []uint32{maxU32 - 2, maxU32 - 1, maxU32, maxU32}))
 	case "release":
 		parks := w.pendingParks()
 		if len(parks) == 0 {
@@ -710,7 +880,7 @@ func (w *world) doStepInner(op string) {
 			w.seqAction(pick(w, "template", []string{"open", "close", "lock_new"}), false)
 			return
 		}
-		r := pick(w, "slotRef", cands)
+		r := pick(w, "slotRef", w.preferHot(cands))
 		sl := r.s.slots[r.slot]
 		c := w.sendSeq(r.s, r.slot, sl.lastSeq, "replay", sl.last.t, sl.last.cache, nil, sl.last)
 		w.learnSessionFate(c)
@@ -724,7 +894,7 @@ func (w *world) doStepInner(op string) {
 			w.seqAction(pick(w, "template", []string{"read", "write", "open"}), true)
 			return
 		}
-		r := pick(w, "slotRef", cands)
+		r := pick(w, "slotRef", w.preferHot(cands))
 		b := r.s.slots[r.slot].busy
 		w.sendSeq(r.s, r.slot, b.seq, "dup", b.t, b.cache, nil, b)
 	case "false_retry":
@@ -743,7 +913,7 @@ func (w *world) doStepInner(op string) {
 			w.seqAction(pick(w, "template", []string{"open", "close", "lock_new"}), false)
 			return
 		}
-		r := pick(w, "slotRef", cands)
+		r := pick(w, "slotRef", w.preferHot(cands))
 		sl := r.s.slots[r.slot]
 		t := w.buildTemplate(r.s.inc, pick(w, "template", templateKinds))
 		seq := sl.lastSeq
@@ -757,7 +927,7 @@ func (w *world) doStepInner(op string) {
 			w.bootstrap(pick(w, "client", w.clients))
 			return
 		}
-		r := pick(w, "slotRef", cands)
+		r := pick(w, "slotRef", w.preferHot(cands))
 		sl := r.s.slots[r.slot]
 		delta := pick(w, "seqDelta", []uint32{2, 3, 17, 1 << 31, ^uint32(0), ^uint32(1)})
 		t := w.buildTemplate(r.s.inc, pick(w, "template", []string{"open", "close", "lock_new", "remove", "write", "free_stateid"}))
@@ -769,7 +939,7 @@ func (w *world) doStepInner(op string) {
 			w.seqAction(pick(w, "template", []string{"read", "write", "open"}), true)
 			return
 		}
-		r := pick(w, "slotRef", cands)
+		r := pick(w, "slotRef", w.preferHot(cands))
 		sl := r.s.slots[r.slot]
 		w.sendSeq(r.s, r.slot, sl.lastSeq, "stale_busy", sl.last.t, sl.last.cache, nil, sl.last)
 	case "bad_slot":
